@@ -31,13 +31,17 @@ def gen_c(rng, n, common=False):
         src.append(f"static int helper{i}(int x) {{ return tab{i}[x & 7] * 3 + (int)strlen(names{i}[x & 3]); }}")
         cname = f"own_counter{i}"
         src.append(("int shared_common; " if (i == 0 or common) else "extern int shared_common; ") + f"int {cname};")     # with -fcommon: tentative definitions in every unit
+        # zero-initialised statics of different alignments: each unit's .bss has its own alignment, and the objects must stay apart
+        al = [4, 8, 16, 32, 64][(i + k) % 5]
+        src.append(f"static int hits{i}; static char scratch{i}[{(k % 5) * 8 + 24}] __attribute__((aligned({al})));")
+        src.append(f"__attribute__((noinline)) static int bss{i}(int x) {{ hits{i}++; memset(scratch{i}, 0x55, sizeof scratch{i}); scratch{i}[x & 7] = (char)x; return hits{i} + scratch{i}[(x + 1) & 7]; }}")
         src.append(f"__thread int tls{i} = {k % 13};")
         src.append(f"__attribute__((weak)) int weak_fn(int x) {{ return x + {i}; }}")
         src.append(f"__attribute__((visibility(\"hidden\"))) int hidden{i}(int x) {{ return x ^ {k}; }}")
         src.append(f"__attribute__((constructor)) static void ctor{i}(void) {{ {cname} += {i + 1}; shared_common += 1; }}")
         src.append(f"typedef int (*fp)(int); static fp fns{i}[] = {{helper{i}, hidden{i}, weak_fn}};")
         src.append(f"int unit{i}(int x) {{ int s = 0; for (int j = 0; j < 3; j++) s += fns{i}[j](x + j); switch (x % 5) {{ case 0: s += 11; break; case 1: s -= 7; break; case 2: s *= 3; break; case 3: s ^= 0x55; break; default: s += tls{i}; }} "
-                   f"return s + helper{i}(x) + {'unit' + str(i + 1) + '(x / 2)' if i + 1 < n else 'x'}; }}")
+                   f"return s + bss{i}(x) + helper{i}(x) + {'unit' + str(i + 1) + '(x / 2)' if i + 1 < n else 'x'}; }}")
         protos.append(f"int unit{i}(int); int hidden{i}(int);")
         units.append(src)
     protos.append("int weak_fn(int);")
